@@ -8,7 +8,9 @@ def declare(reg, eng):
     reg.enum("DependencyStatus", [("WAIT", 0), ("OK", 1), ("FAIL", 2)], real="experimaestro.scheduler.dependencies:DependencyStatus")
     reg.enum("JobFailureStatus", [("DEPENDENCY", 0), ("FAILED", 1), ("MEMORY", 2)])
 
-    reg.klass("Lock", [], {"_level": "int", "detached": "bool"})
+    # ghost_held: specification-only field (no counterpart in the code): the last acquire() of this lock object succeeded,
+    # i.e. a holding was really taken; defined by the ("ASSUME", ...) clauses of lock() / acquire() below
+    reg.klass("Lock", [], {"_level": "int", "detached": "bool", "ghost_held": "bool"})
     reg.klass("Locks", ["Lock"], {"locks": "list[Lock]"})
     reg.klass("JobLock", ["Lock"], {"job": "Job"})
     reg.klass("Dependents", [], {"lock": "Mutex", "_dependents": "set[Dependency]"})
@@ -50,9 +52,12 @@ def declare(reg, eng):
                  requires=["isint(self._level)"],
                  ensures=["result is self",
                           "implies(old(self._level) == 0, self._level == 1 and effect_count('_acquire') == 1)",
-                          "implies(old(self._level) != 0, self._level == old(self._level) and effect_count('_acquire') == 0)"],
+                          "implies(old(self._level) != 0, self._level == old(self._level) and effect_count('_acquire') == 0)",
+                          ("ASSUME", "implies(old(self._level) == 0, self.ghost_held == True)"),
+                          ("ASSUME", "implies(old(self._level) != 0, self.ghost_held == old(self.ghost_held))")],
+                 # a refused acquire takes nothing: ghost_held is not in the frame of this outcome
                  raises={"LockError": {"when": ["old(self._level) == 0"], "modifies": ["self._level"]}},
-                 modifies=["self._level", "*.available", "fs"])
+                 modifies=["self._level", "self.ghost_held", "*.available", "fs"])
     reg.contract("Lock.release", params=["self"], types={"self": "Lock"},
                  requires=["isint(self._level)", "isbool(self.detached)"],
                  ensures=[("C09", "implies(not old(self.detached) and old(self._level) == 1, self._level == 0 and effect_count('_release') == 1)"),
@@ -62,7 +67,7 @@ def declare(reg, eng):
                  modifies=["self._level", "*.available", "fs"])
     reg.contract("Lock.__enter__", params=["self"], types={"self": "Lock"}, returns="Lock", requires=["isint(self._level)"],
                  ensures=["result is self"], raises={"LockError": {"when": [], "modifies": ["self._level"]}},
-                 modifies=["self._level", "*.available", "fs"])
+                 modifies=["self._level", "self.ghost_held", "*.available", "fs"])
     reg.contract("Lock.__exit__", params=["self"], types={"self": "Lock"}, requires=["isint(self._level)", "isbool(self.detached)"],
                  # (release() is called here: "exactly once" is its own clause; its _release effect is propagated to this caller)
                  ensures=[("C09", "implies(not old(self.detached) and old(self._level) == 1, self._level == 0 and effect('_release'))")],
@@ -115,7 +120,7 @@ def declare(reg, eng):
                  modifies=["self.currentstatus", "self.target.unsatisfied", "self.target.state", "self.target.failure_status", "self.target._readyEvent._set"])
 
     # ---- registry of jobs
-    reg.contract("Scheduler.aio_registerJob", params=["self", "job"], types={"self": "Scheduler", "job": "Job"},
+    reg.contract("Scheduler.aio_registerJob", unreachable_ok=['logger.warning("Exit mode: not submitting")'], params=["self", "job"], types={"self": "Scheduler", "job": "Job"},
                  requires=["isint(self.xp.unfinishedJobs)", "self.exitmode == False", "isstr(job.identifier)"],
                  ensures=[
                      ("C05", "implies(old(haskey(self.jobs, job.identifier)) and old(lookup(self.jobs, job.identifier, Job).state) != JobState.ERROR, "
